@@ -35,8 +35,11 @@ func init() {
 func compileRegexp(reg string) (*regexp.Regexp, error) {
 	regCacheLock.Lock()
 	defer regCacheLock.Unlock()
+	verifCache("lock", reg)
+	defer verifCache("unlock", reg)
 
 	// Look for the compiled regular-expression object in our cache.
+	verifCache("read", reg)
 	r, ok := regCache[reg]
 	if !ok {
 
@@ -48,6 +51,7 @@ func compileRegexp(reg string) (*regexp.Regexp, error) {
 		}
 
 		// store in the cache for next time
+		verifCache("write", reg)
 		regCache[reg] = r
 	}
 	return r, nil
